@@ -724,6 +724,21 @@ def leap_case(case, res):
                 res.violation("leap|time_at", f"time_at({k}) is {el!r} s after the start, expected {k / srv!r}", case, {"k": k})
                 continue
             if k < n:
+                # a reader written to the documented hook signature _read_array(offset, n, /): Dask reads with chunks=
+                m_ = min(12, n - k)
+                try:
+                    zd1 = r.read(k, m_, use_dask=True, chunks=(5,))
+                    zd2 = r.dask_read(k, m_, chunks=(4,))
+                    ze = r.read(k, m_)
+                    res.transitions += 3
+                    if not (np.array_equal(zd1.data.compute(), np.asarray(ze.data)) and np.array_equal(zd2.data.compute(), np.asarray(ze.data))
+                            and (zd1.data.numblocks[0] > 1 or m_ <= 5)):
+                        res.violation("base reader|dask read with chunks differs", f"k={k}", case, {"k": k})
+                    else:
+                        res.hits["reader on the documented hook signature, chunks="] += 1
+                except Exception as e:
+                    res.violation("base reader|dask read with chunks raised", f"read({k}, {m_}, use_dask=True, chunks=(5,)) on a reader "
+                                  f"implementing _read_array(offset, n, /): {type(e).__name__}: {e}", case, {"k": k})
                 z = r.read(k, min(4, n - k))
                 if abs((z.start_time - tk).to_value(u.s)) > 1e-12 or float(np.asarray(z.data)[0]) != float(np.float32(k)):
                     res.violation("leap|read", f"read({k}, ..) starts {(z.start_time - tk).to_value(u.s)!r} s from time_at({k}) / wrong "
@@ -789,7 +804,7 @@ def main(argv=None):
     return report.run_check(
         PID, gen_cases=gen_cases, check_case=check_case, describe=describe,
         required_hits=["out-of-range time rejected", "out-of-range read rejected", "adjacent reads join", "known payload verified",
-                       "same read repeated in a history", "numpy integer offsets", "time given on another scale", "dask read split into several time chunks", "mask argument modified by the caller afterwards", "stream running through a leap second",
+                       "same read repeated in a history", "numpy integer offsets", "time given on another scale", "dask read split into several time chunks", "mask argument modified by the caller afterwards", "stream running through a leap second", "reader on the documented hook signature, chunks=",
                        "file names whose sorted order is not their time order", "schedules explored", "schedules with a preemption",
                        "two readers in one graph", "free-running pass"],
         assumptions=["thread interleavings are explored at Python-line granularity inside pulsarbat/readers/*.py and utils.py; code in "
